@@ -188,7 +188,7 @@ def designed():
 
 def check(run):
     rng = run.rng
-    progs = designed() + [gen_case(rng) for _ in range(1500 if run.tier == "thorough" else 220)]
+    progs = designed() + [gen_case(rng) for _ in range(2500 if run.tier == "thorough" else 700)]
     nd = len(designed())
     cases = [mk_case(p, "designed-pass-through" if i < nd else "macros") for i, p in enumerate(progs)]
     # the reference expansion of each program, assembled by the IMPLEMENTATION (oracle side)
